@@ -68,6 +68,8 @@ pub struct Model {
   pub handles: BTreeMap<usize, Vec<QOp>>,
   pub segments: usize,
   pub compact_unsafe: bool,
+  /// savepoints: (length of the handle's queue, length of the shared log)
+  pub marks: BTreeMap<usize, (usize, usize)>,
 }
 
 impl Model {
@@ -106,6 +108,7 @@ impl Model {
 
   pub fn commit(&mut self, h: usize) {
     let q = self.handles.get(&h).expect("handle").clone();
+    self.marks.remove(&h);
     if q.is_empty() {
       return;
     }
@@ -115,15 +118,33 @@ impl Model {
     }
     self.log.clear();
     self.handles.get_mut(&h).unwrap().clear();
+    self.marks.remove(&h);
   }
 
   pub fn rollback(&mut self, h: usize) {
     self.handles.get_mut(&h).expect("handle").clear();
     self.log.clear();
+    self.marks.remove(&h);
   }
 
   pub fn drop_writer(&mut self, h: usize) {
     self.handles.remove(&h);
+    self.marks.remove(&h);
+  }
+
+  pub fn savepoint(&mut self, h: usize) {
+    let m = (self.handles.get(&h).map(|q| q.len()).unwrap_or(0), self.log.len());
+    self.marks.insert(h, m);
+  }
+
+  /// Discards what the handle queued after its mark (nothing without a mark).
+  pub fn rollback_to(&mut self, h: usize) {
+    if let Some((q, l)) = self.marks.remove(&h) {
+      if let Some(hq) = self.handles.get_mut(&h) {
+        hq.truncate(q);
+      }
+      self.log.truncate(l);
+    }
   }
 
   /// `Ok(changed)` or `Err` when compaction must refuse.
@@ -140,6 +161,7 @@ impl Model {
 
   pub fn reopen(&mut self) {
     self.handles.clear();
+    self.marks.clear();
   }
 }
 
